@@ -1,0 +1,26 @@
+//go:build verif
+
+package spine
+
+import "sync/atomic"
+
+// Yield points for the verification harness (properties C07 and C20). With the
+// build tag off these calls are no-ops (verif_localtree_off.go).
+
+var verifYieldFnLT atomic.Pointer[func(point string)]
+
+// VerifSetYieldLT installs (or, with nil, removes) the function called at the
+// yield points "GetOrAddFeature.miss" and "UseCase.copied".
+func VerifSetYieldLT(f func(point string)) {
+	if f == nil {
+		verifYieldFnLT.Store(nil)
+		return
+	}
+	verifYieldFnLT.Store(&f)
+}
+
+func verifYieldLT(point string) {
+	if f := verifYieldFnLT.Load(); f != nil {
+		(*f)(point)
+	}
+}
